@@ -12,7 +12,7 @@ R=/tmp/confirm2/$PID-$MK.result
   TMPDIR=$W.tmp PYTHONPATH=$W/src timeout 900 /venv/bin/python $SRC/demo.py > $R.clean.out 2>&1; echo "demo_orig_exit=$?" > $R
   git apply $SRC/patch.diff || { echo "patch_failed" >> $R; }
   TMPDIR=$W.tmp PYTHONPATH=$W/src timeout 900 /venv/bin/python $SRC/demo.py > $R.patched.out 2>&1; echo "demo_patched_exit=$?" >> $R
-  TMPDIR=$W.tmp PYTHONPATH=$W/src timeout 1800 /venv/bin/python -m pytest -q -p no:cacheprovider --timeout=900 2>&1 | tail -3 > /tmp/confirm2/$PID-$MK.suite
+  TMPDIR=$W.tmp PYTHONPATH=$W/src timeout 1800 /venv/bin/python -m pytest -q -p no:cacheprovider --timeout=900 2>&1 | grep -E "passed|failed" | tail -3 > /tmp/confirm2/$PID-$MK.suite
 )
 git -C /repo worktree remove --force $W; rm -rf $W.tmp
 cat $R; tail -1 /tmp/confirm2/$PID-$MK.suite
